@@ -170,7 +170,13 @@ pub fn api_case(i: u64, seed: u64) -> Scenario {
     sc.ticks = t1 + 120;
     sc.settle = 60;
     let handle = sc.peers[0].locals; // first remote handle as seen from peer 0
-    sc.ops.push(Op::Disconnect { tick: t1, peer: 0, handle });
+    if (i / NBASE) % 2 == 1 {
+        // the game polls first (the remote's newest packets, possibly contradicting a prediction, are taken in) and
+        // drops the player before its next advance_frame(): a misprediction and the drop are pending together
+        sc.ops.push(Op::Misuse { tick: t1, peer: 0, kind: 98, arg: handle });
+    } else {
+        sc.ops.push(Op::Disconnect { tick: t1, peer: 0, handle });
+    }
     if !sc.specs.is_empty() && i % 2 == 1 {
         // ... and the spectator right after it, before the next advance_frame()
         let sh = sc.num_players() as u8;
@@ -297,7 +303,7 @@ pub fn run_prop(ctx: &Ctx) -> PropReport {
         n, move |i| death_case(i, seed, stride, &offs), eval, ctx.tier == Tier::Thorough));
     let m = ctx.tier.pick(NBASE * 2, NBASE * 10);
     rep.part(|| run_enum(ctx, "disconnect_player",
-        "the same base configs with an explicit disconnect_player call at a seeded moment (and a second call 30 ticks later): first call Ok with immediate effect on the timeline, second call Err, no further events for that address",
+        "the same base configs with an explicit disconnect_player call at a seeded moment, in half of them right after a bare poll_remote_clients() (and a second call 30 ticks later): first call Ok with immediate effect on the timeline, second call Err, no further events for that address",
         m, move |i| api_case(i, seed), eval, false));
     let eoffs: Vec<u32> = ctx.tier.pick(vec![0, 2], vec![0, 1, 2, 3]);
     let ne = NBASE * 10 * eoffs.len() as u64 * 2;
